@@ -225,6 +225,9 @@ func identityVariant(w, variant int) *idp.Identity {
 	case 3:
 		id.Signatures.ID = append(id.Signatures.ID, 0x01)
 		id.Signatures.PublicKey = id.Signatures.PublicKey[:len(id.Signatures.PublicKey)-1]
+	case 4:
+		// an identity type no provider is registered for in this process: the codec stores and returns what it is given
+		id.Type = "a-type-nobody-registered"
 	}
 	return id
 }
@@ -239,7 +242,7 @@ func c08Identities(p *run.Part) {
 			if codec == "linkkey" {
 				io = linkKeyIO("K1")
 			}
-			for step, variant := range []int{0, 1, 2, 3, 0, 2} {
+			for step, variant := range []int{0, 1, 2, 3, 0, 2, 4, 0} {
 				id := identityVariant(w, variant)
 				e, err := entry.CreateEntryWithIO(world.Ctx, st, id, &entry.Entry{LogID: "X", Payload: []byte(fmt.Sprintf("idv%d", step)),
 					Next: linksOf([]int{0}), Clock: entry.NewLamportClock(id.PublicKey, step+1)}, nil, io)
